@@ -46,6 +46,35 @@ CHECKS = {
         tech="exhaustive enumeration of digit sub-spaces and 2-position neighbourhoods against reference algorithms",
         sec="C20",
     ),
+    "C05": dict(
+        cat="exploration",
+        text="Full product of v1 header layouts (uniform separator CRLF/LF/CR/none x blanks after colon x leading blank lines x header/body gap x "
+        "COMPRESSION present/absent) x every (charset, body) pair encodable, all field-value combinations, separators deviating at <=2 boundaries, "
+        "and the v2 product (quotes, standalone, encoding attribute, breaks, leading blank line) - each file parsed by parse_header and compared with "
+        "reference fields and the exact body; OFXTree.parse compared with the reference tree.",
+        note="Body alphabet of six bodies (ASCII, latin-1, cp1252-only, C1 control, UTF-8 multi-byte, multi-line); at most two leading blank lines.",
+        tech="exhaustive product enumeration of header layouts x charsets x bodies against reference field tables",
+        sec="C05",
+    ),
+    "C10": dict(
+        cat="exploration",
+        text="Every parameterisation of every converter (88 incl. required/optional and ListElement wrappers) x its whole small domain: all strings up to "
+        "limit+1 over a 5-character alphabet, all integers within and just beyond the digit limit, all decimals m*10^-s |m|<=300 s<=4 in all spellings, "
+        "boundary date-times/times in 6 zones, entity texts, None, non-values, wrong Python types; oracles: write-read identity, reference reading, "
+        "canonical fixed point, None rules, limits, rejections.",
+        note="Alphabets exclude Python-isms (1_0, exponent texts, bool-as-int) and strings that spell an entity on the write side.",
+        tech="exhaustive enumeration of whole small domains per converter parameterisation against reference type rules",
+        sec="C10",
+    ),
+    "C12": dict(
+        cat="fault_enumeration",
+        text="All supported versions and every 1xx x security levels x UIDs covering [A-Za-z0-9_-] (length 1 and 36) are generated, written, strictly re-read "
+        "and parsed back; every single-field corruption (every foreign token per field incl. tokens of other fields, wrong OFXHEADER kind, bad VERSION, "
+        "37-char UID), every omission and every adjacent transposition is fed through header text and constructor keywords and must be refused with OFXHeaderError.",
+        note="COMPRESSION treated as optional (library grammar); multi-field corruptions not enumerated.",
+        tech="exhaustive single-fault enumeration over header fields, both construction routes",
+        sec="C12",
+    ),
 }
 
 NA_REASON = "check not built yet in this revision of /verif (planned: see DESIGN.md section 3); nothing is claimed for it"
